@@ -114,6 +114,9 @@ class LexInf(Inference):
                 )
             if not contra_solver.solve():
                 return True
+            if len(self.epistemic_state["partition"]) < 2:
+                # no finite layer: all feasible worlds are equally plausible
+                return False
 
             for index in self.epistemic_state["partition"][-1]:
                 [wcnf_v.append(c) for c in self.epistemic_state["nf_cnf_dict"][index]]
